@@ -6,7 +6,7 @@ mkdir -p /tmp/main/soak
 for sd in $seeds; do
   for p in $props; do
     ( VERIF_SEED=$sd timeout 1200 ./check $p > /tmp/main/soak/$p.$sd.log 2>&1; rc=$?; echo "$p seed=$sd rc=$rc $(grep -c '^KNOWN-FINDING' /tmp/main/soak/$p.$sd.log) known | $(tail -1 /tmp/main/soak/$p.$sd.log | cut -c1-150)" ) &
-    while [ $(jobs -r | wc -l) -ge 8 ]; do sleep 0.5; done
+    while [ $(jobs -r | wc -l) -ge ${SOAK_PAR:-4} ]; do sleep 0.5; done
   done
 done
 wait
